@@ -54,6 +54,8 @@ def is_zero(t):
         return False
     if t.get("k") == "null":
         return True
+    if t.get("k") == "ctor" and t.get("f", "").split("::")[0] in ("RefCount", "CbcPointer") and (not t.get("a") or (len(t["a"]) == 1 and is_zero(t["a"][0]))):
+        return True     # RefCount<T>(nullptr): comparing against it is a null test
     return t.get("k") in ("lit",) and t.get("v") == 0 or (const(t) == 0 and t.get("k") in ("lit", "ref", "un", "bin", "sizeof", "x"))
 
 
@@ -351,7 +353,10 @@ def m_is_ref(name):
 
 
 def m_is_mem(name):
-    return M(lambda t: strip(t).get("k") == "mem" and strip(t)["m"] == name, "mem(%s)" % name)
+    """member access; a bare name (no ::) matches the member of any class"""
+    if "::" in name:
+        return M(lambda t: strip(t).get("k") == "mem" and strip(t)["m"] == name, "mem(%s)" % name)
+    return M(lambda t: strip(t).get("k") == "mem" and strip(t)["m"].split("::")[-1] == name, "mem(%s)" % name)
 
 
 def m_const(v):
